@@ -136,6 +136,10 @@ def check_collect_quantity(e):
     for p in sp.sympify(e).atoms(sp.Pow):
         if p.exp.is_Float and p.exp.is_zero:
             return None
+        # a unit or quantity raised to an INFINITE (or NaN) power has no dimension to speak of (length**oo); the statement's
+        # "dimensional product of its parts" does not cover it (seed sweep, VERIF_SEED=11: kilogram/degree**oo)
+        if (p.exp.is_infinite or p.exp is S.NaN) and not getattr(p.base, "is_number", False):
+            return None
     if sp.sympify(e).has(sp.zoo):
         return None
     try:
@@ -320,6 +324,13 @@ def nth_tree(kind, seed, n, depth=2):
 
 def replay_tree(kind, seed, n):
     """re-generate the n-th tree of the deterministic enumeration and assert the contract on the real function"""
+    if n < 0 and kind == "collect_expression":
+        t = known_witnesses_collect_expression()[-n - 1]
+        why = check_collect_expression(t)
+        print("input:", t, "| srepr:", sp.srepr(t)[:300])
+        assert why is None, f"{kind}({t}): {why}"
+        print("contract holds on this input")
+        return
     if n == 0 and kind == "collect_quantity":
         why = check_recalibrated_unit()
         print("scenario: a unit is collected, then re-scaled, then re-registered with another dimension")
@@ -1071,13 +1082,44 @@ def known_cause_collect_expression(tr, why):
             ex = pw.exp
             if isinstance(ex, SymQuantity) and sp.sympify(ex.scale_factor).is_zero:
                 return "power-whose-exponent-is-a-zero-valued-quantity"
+    # D30: the real is_number() answers True for a sub-expression that still contains symbols: complex((-1)**(x + oo)) does not
+    # raise (SymPy evaluates it to nan + nan*I), so the operand is filed under "numbers" and never inspected
+    from symplyphysics.core.dimensions.miscellaneous import is_number as real_is_number
+    for sub in sp.preorder_traversal(sp.sympify(tr)):
+        if getattr(sub, "free_symbols", None) and not isinstance(sub, SymQuantity):
+            try:
+                if real_is_number(sub):
+                    return "symbolic-subexpression-classified-as-a-number"
+            except Exception:  # noqa: BLE001
+                pass
     return None
+
+
+def known_witnesses_collect_expression():
+    """the recorded inputs of the listed C06 findings (D23, D30): checked on EVERY run, whatever the seed and the budget, so that a listed
+    finding is reported by its KNOWN-FINDING line each time (and stops being reported the day the defect is repaired)"""
+    u = _units()
+    from symplyphysics import Quantity, Symbol, Function
+    p = sp.Symbol("p")
+    x = Symbol("x", u.length)
+    t = Symbol("t", u.time)
+    f = Function("f", [t], u.length)
+    return [(oo * p) ** Quantity(0), (-1) ** (2 * sp.Derivative(f(t), t) + oo) * x]
 
 
 def search_collect_expression(seed=0, budget=6000, depth=2, known=None):
     """first disagreement that is not a listed known cause; `known` (a dict) collects cause -> (tree, why, index) of the listed ones"""
     rng = random.Random(seed)
     n = 0
+    if known is not None:
+        for k, w in enumerate(known_witnesses_collect_expression()):
+            try:
+                why = check_collect_expression(w)
+            except Exception:  # noqa: BLE001
+                continue
+            cause = known_cause_collect_expression(w, why) if why else None
+            if cause is not None:
+                known.setdefault(cause, (w, why, -(k + 1)))
     for tr in trees(leaves_expression(), depth, rng, budget):
         n += 1
         try:
